@@ -78,7 +78,12 @@ def _sqlite_remainder_expr(dbmodel, expression):
     # SQLite's % casts to integer and takes the sign of the dividend: use the floored form (numpy.mod)
     e0 = dbmodel.expr_to_sql(expression.args[0], want_inline_parens=True)
     e1 = dbmodel.expr_to_sql(expression.args[1], want_inline_parens=True)
-    return f"({e0} - FLOOR({e0} / (1.0 * {e1})) * {e1})"
+    # integers stay exact (a double holds only 53 bits); everything else goes through the floored form
+    return (
+        f"(CASE WHEN (typeof({e0}) = 'integer') AND (typeof({e1}) = 'integer')"
+        f" THEN ((({e0} % {e1}) + {e1}) % {e1})"
+        f" ELSE ({e0} - FLOOR({e0} / (1.0 * {e1})) * {e1}) END)"
+    )
 
 
 def _sqlite_logical_or_expr(dbmodel, expression):
